@@ -94,3 +94,20 @@ reg("C05", "c05", [("classify", "plain", 1)], "exploration",
                "objective consistent with the planted primal/dual points, the other solver path and HiGHS.",
     level_note="Trusts the planted constructions (verified per case by SVD and, for LPs, by HiGHS), numpy, scipy HiGHS.",
     design_ref="4/C05")
+
+reg("C08", "c08", [("kernels", "plain", 1)], "exploration",
+    rule="Hypothesis draws a kernel (scale, scale2, pack, pack2, unpack, sdot, snrm2, sgemv, trisc, triusc, symm, sprod, "
+         "ssqr, sinv, max_step, jdot, jnrm2), dims incl. empty and order-0/1 blocks, mnl 0-2, dyadic vectors (made interior "
+         "where the operation needs it), W from the definition (d, beta, v with v'Jv=1, nonsingular r with rti=r^-T), "
+         "flags trans/inverse/diag, offsets, multi-column arguments; sentinels surround the addressed region. Each case "
+         "runs on the compiled kernels and on the pure-Python fallbacks (misc.py re-loaded with use_C=False). "
+         "Non-trivial = a q or s block of size >=2 together with a non-default flag/offset/mnl/multi-column "
+         "(symm/jdot/jnrm2: n>=2); distinct = SHA-1 of case JSON.",
+    assumptions=["strictly upper triangles of 's' blocks are unspecified storage: results are compared on lower triangles",
+                 "kernels are called within their contract (vector lengths consistent with dims/mnl/offsets)"],
+    technique="property-based differential testing: numpy definition vs compiled vs pure-Python kernels, algebraic laws, sentinels",
+    level_text="~6e4 (quick) / 1.5e6 (thorough) generated kernel calls, each judged against a numpy reference written from "
+               "the definition, by algebraic laws (inverse scaling, adjointness, pack isometry, sinv o sprod, "
+               "eigen-decomposition of max_step) and by C-vs-Python agreement, with sentinel words around the addressed blocks.",
+    level_note="Trusts numpy and vlib/ref_cone.py; the Python fallbacks are obtained by an AST transform of the tree's misc.py.",
+    design_ref="4/C08")
